@@ -12,9 +12,11 @@ import (
 
 	"github.com/gregoryv/mq"
 
+	"verif/mc/bind"
 	"verif/mc/core"
 	"verif/mc/explore"
 	"verif/mc/gen"
+	"verif/mc/spec"
 )
 
 // C11 — encoding is deterministic and read-only.
@@ -29,7 +31,7 @@ func init() {
 			"(C) cross-check on the free-running (un-instrumented) runtime: the corpus is encoded 50x in each of three separate processes and fingerprints compared. (D) static scan of the library for other nondeterminism sources. " +
 			"states = distinct (packet, digest) states; transitions = operations + explored orderings; distinct_nontrivial = distinct (packet, ordering vector) and (packet, operation sequence) executions.",
 		Assumptions: []string{
-			"map iteration order is the only order nondeterminism the Go runtime introduces into sequential code; other sources (time, rand, %p, goroutines) are scanned for statically and listed if present",
+			"map iteration order is the only order nondeterminism the Go runtime introduces into sequential code; the clock is owned through a seam (time.Now/Since/Until of the library read a clock the harness advances by 2.5 s per library call); other sources (rand, %p, goroutines) are scanned for statically and listed if present",
 			"ranges over maps whose key type is not ordered cannot be put under the seam; they are reported as unowned and make the run non-exhaustive",
 		},
 		SingleThread: true,
@@ -359,6 +361,10 @@ func runC11(x *core.Ctx) {
 		}
 		x.R.Extra["map_range_sites"] = len(facts.MapRanges)
 		for _, n := range facts.Nondeterminism {
+			if facts.ClockSeam && (strings.HasSuffix(n.What, "time.Now") || strings.HasSuffix(n.What, "time.Since") || strings.HasSuffix(n.What, "time.Until")) && strings.HasPrefix(n.What, "call ") {
+				x.Note(fmt.Sprintf("%s at %s: owned through the clock seam (the harness decides what time it is)", n.What, n.Pos))
+				continue
+			}
 			x.Cap(fmt.Sprintf("unowned nondeterminism source: %s at %s", n.What, n.Pos))
 		}
 	} else {
@@ -480,7 +486,38 @@ func runC11(x *core.Ctx) {
 	// packets that came from the wire in a form the library's own encoder
 	// does not emit (every frame of the valid corpus): sequences of <= 2
 	// read-only operations
-	for _, v := range validCorpus() {
+	decoded := append([]VFrame{}, validCorpus()...)
+	// the rich frame of every type with its properties in reversed and in
+	// rotated order (other implementations order them differently)
+	for _, ty := range allTypes {
+		base := richPacket(ty, false)
+		if len(base.Props) < 2 {
+			continue
+		}
+		for _, mode := range []int{0, 1} {
+			p := base.Clone()
+			n := len(p.Props)
+			q := make([]spec.Prop, n)
+			for i := range q {
+				if mode == 0 {
+					q[i] = p.Props[n-1-i]
+				} else {
+					q[i] = p.Props[(i+1)%n]
+				}
+			}
+			p.Props = q
+			if p.Will != nil && len(p.Will.Props) > 1 {
+				w := p.Will.Props
+				for i, j := 0, len(w)-1; i < j; i, j = i+1, j-1 {
+					w[i], w[j] = w[j], w[i]
+				}
+			}
+			if b, _, err := spec.Encode(p, spec.Form{}); err == nil {
+				decoded = append(decoded, VFrame{B: b, P: p, Name: fmt.Sprintf("%s.rich.props-reordered%d", bind.TypeNames[ty], mode)})
+			}
+		}
+	}
+	for _, v := range decoded {
 		if !x.Mine() {
 			continue
 		}
